@@ -80,3 +80,106 @@ def refresh_marks_changed(ctx: Ctx, rep: Report, rid: str):
         rep.check(rid, "get_latest|new-%s-marks-changed" % what, f, pth is None, "a newly discovered %s stamps the side changed" % what,
                   "a refresh that discovers a new %s no longer marks the side changed: a concurrent delete on the other side wins over the newer edit" % what,
                   witness=describe_path(pth) if pth else None)
+
+
+def alias(rep: Report, src_rules, dst_rule: str, text: str, expect: int, fn, keep=None):
+    """Run rule(s) of a neighbouring property and report the instances selected by `keep` (default: all of the first source rule) under
+    `dst_rule`; every other instance the call produced is dropped. Source rules that the property declares itself are left untouched."""
+    if isinstance(src_rules, str):
+        src_rules = [src_rules]
+    rep.rule(dst_rule, text, expect)
+    saved = {r: (rep.rules.get(r), rep.expect.get(r)) for r in src_rules}
+    before = len(rep.instances)
+    for r in src_rules:
+        rep.rules[r] = "alias"
+        rep.expect[r] = 0
+    fn()
+    new = rep.instances[before:]
+    del rep.instances[before:]
+    for i in new:
+        if i.rule not in src_rules:
+            rep.instances.append(i)
+        elif (keep(i) if keep else i.rule == src_rules[0]):
+            i.rule = dst_rule
+            rep.instances.append(i)
+    for r, (t, e) in saved.items():
+        if t is None or e is None:
+            rep.rules.pop(r, None)
+            rep.expect.pop(r, None)
+        else:
+            rep.rules[r], rep.expect[r] = t, e
+
+
+def kids_sync_path_rebased(ctx: Ctx, rep: Report, rid: str):
+    """_update_kids: a child's last-synced path is rebased from ITS OWN old last-synced path (not from its current path): a child rename that
+    has not been synced yet must stay visible as a difference between path and sync_path."""
+    f = ctx.prog.func("SyncState._update_kids")
+    ps = f.params()
+    prior, newp = ps[3], ps[4]
+    stores = [n for n in ctx.own_nodes(f) if isinstance(n, ast.Assign) and isinstance(n.targets[0], ast.Attribute) and n.targets[0].attr == "sync_path"]
+    if not stores:
+        rep.violation(rid, "_update_kids|sync_path", f, "children's last-synced paths are no longer moved with a renamed folder")
+        return
+    defs = {}
+    for n in ctx.own_nodes(f):
+        if isinstance(n, ast.Assign) and isinstance(n.targets[0], ast.Name):
+            defs.setdefault(n.targets[0].id, []).append(n.value)
+
+    def resolve(e):
+        if isinstance(e, ast.Name) and len(defs.get(e.id, [])) == 1:
+            return defs[e.id][0]
+        return e
+    for st_ in stores:
+        sub_ = ast.unparse(st_.targets[0].value)          # e.g. sub[side]
+        v = resolve(st_.value)
+        m = pat.match("$P.join(%s, $R)" % newp, v)
+        ok = False
+        detail = "value `%s`" % ast.unparse(st_.value)
+        if m is not None:
+            r = resolve(m["R"])
+            m2 = pat.match("$P.is_subpath(%s, %s.sync_path)" % (prior, sub_), r)
+            ok = m2 is not None
+            detail = "join(new folder, is_subpath(old folder, %s.sync_path))" % sub_ if ok else "relative part comes from `%s`" % ast.unparse(r)
+        rep.check(rid, "_update_kids|sync_path", ctx.line(f, st_), ok, detail,
+                  "a child's last-synced path is not rebased from its own old last-synced path (%s): a pending child rename is booked as already synced / the synced marker drifts" % detail)
+
+
+def refresh_marks_exists(ctx: Ctx, rep: Report, rid: str):
+    """unconditionally_get_latest: once the provider returned info, the side is marked EXISTS on every path (a stale tombstone is repaired
+    even when the content hash did not change)."""
+    f = ctx.prog.func("SyncState.unconditionally_get_latest")
+    ent, side = f.params()[1:3]
+    g = ctx.cfg(f)
+    infos = [n for n in g.nodes if n.kind == "test" and isinstance(n.ast, ast.UnaryOp) and isinstance(n.ast.op, ast.Not)]
+    iname = None
+    for n in ctx.own_nodes(f):
+        if isinstance(n, (ast.Assign, ast.AnnAssign)) and isinstance(n.value, ast.Call) and isinstance(n.value.func, ast.Attribute) and n.value.func.attr == "info_oid":
+            tg = n.targets[0] if isinstance(n, ast.Assign) else n.target
+            iname = tg.id if isinstance(tg, ast.Name) else None
+    tests = [n for n in g.nodes if n.kind == "test" and iname and pat.match("not %s" % iname, n.ast) is not None]
+    if not tests:
+        raise AnalysisError("unconditionally_get_latest: `if not <info>` not found")
+    starts = [b for t in tests for (b, l) in g.succ[t.id] if l == "F"]
+    mark = lambda n: cfg_root(n) is not None and isinstance(cfg_root(n), ast.Assign) and pat.match("%s[%s].exists = EXISTS" % (ent, side), cfg_root(n)) is not None   # noqa: E731
+    pth = g.reach(starts, lambda n: n is g.exit, avoid=mark, follow=NORMAL, include_src=True)
+    rep.check(rid, "get_latest|info-marks-exists", f, pth is None, "info present -> exists = EXISTS on every path",
+              "a refresh that finds the object does not always mark it EXISTS: a replayed / stale delete leaves a live object TRASHED and its peer is deleted",
+              witness=describe_path(pth) if pth else None)
+
+
+def refresh_stamp_after_fetch(ctx: Ctx, rep: Report, rid: str):
+    """SyncEntry.get_latest: `_last_gotten` is stored only after unconditionally_get_latest returned (a refresh that raised is not
+    booked as done: the next step refreshes again instead of acting on stale data)."""
+    f = ctx.prog.func("SyncEntry.get_latest")
+    g = ctx.cfg(f)
+    fetch = [n for n in g.nodes if node_has_call(n, "$P.unconditionally_get_latest($$$)")]
+    stamp = [n for n in g.nodes if cfg_root(n) is not None and isinstance(cfg_root(n), ast.Assign) and any(
+        isinstance(t, ast.Attribute) and t.attr == "_last_gotten" for t in cfg_root(n).targets)]
+    if not fetch or not stamp:
+        raise AnalysisError("SyncEntry.get_latest: refresh call / _last_gotten store not found")
+    loops = [n for n in g.nodes if n.kind == "iter"]
+    starts = [b for lp in loops for (b, l) in g.succ[lp.id] if l == "T"] or [g.entry.id]
+    pth = g.reach(starts, lambda n: n in stamp, avoid=lambda n: n in fetch, follow=NORMAL, include_src=True)
+    rep.check(rid, "get_latest|stamp-after-fetch", f, pth is None, "_last_gotten stored only after the refresh returned",
+              "the refresh stamp can be stored before / without the provider refresh: a refresh that fails (temporary error, disconnect) is booked as done and the retry acts on stale state",
+              witness=describe_path(pth) if pth else None)
